@@ -410,6 +410,7 @@ func runDocument(c *hx.Ctx, idx int, format string, keep bool) {
 	}
 	// one Reader, several calls (history.go)
 	runHistory(c, format, path, d, genHistory(c.Rng.Fork(uint64(56+fi)<<40|uint64(idx)), 4+idx%4), kase)
+	docModelFile(c, idx, format, path, o, kase) // every entry point against the Lean document model (docmodel.go)
 	nontrivial := false
 	for _, b := range d.Blocks {
 		if b.Kind != "para" {
@@ -431,6 +432,7 @@ func runDocument(c *hx.Ctx, idx int, format string, keep bool) {
 
 func checkDocument(c *hx.Ctx, format string, d Doc, o rag.MarkdownOptions, md string, kase docCase, via string) {
 	got := readMD(md)
+	readmdOp(c, md) // the reader itself against the Lean reading spec (docmodel_streams.go)
 	if format == ragFormat && d.Title != "" && len(got.Headings) > 0 && got.Headings[0].Level == 1 && got.Headings[0].Text == d.Title {
 		// the document title line the chunk writer puts on top ("# <title>", generated titles are no
 		// heading texts): not a source heading
